@@ -392,6 +392,16 @@ def run_shard(spec, acc, ctx):
 
 
 def replay(case, acc, ctx):
+    if case.get("generations") or case.get("interrupted"):
+        # these witnesses are whole workloads on one long-lived object: run the workload again for that scheme
+        from props import _search_engine as eng
+        spec_ = {"schemes": [case["scheme"]], "rounds": 3, "generations": 80}
+        if case.get("generations"):
+            eng.run_generations(spec_, acc, ctx, "both", sig_prefix="pipeline-")
+        else:
+            eng.run_interrupted(spec_, acc, ctx, "both", sig_prefix="pipeline-")
+        acc.count("replayed")
+        return
     if case.get("many_services"):
         import asyncio
         asyncio.run(many_services({"services": max(27, int(case.get("services_on_the_server", 27)))}, acc, ctx))
